@@ -168,7 +168,9 @@ func internalFault(err error, pan interface{}) string {
 		case strings.Contains(s, "index out of range") && (strings.Contains(s, "with length 2048") || strings.Contains(s, "with length 1024")):
 			return "" // operand stack / frame exhaustion: C06's business
 		case strings.Contains(s, "slice bounds out of range"):
-			// splice with an overflowing count etc. operate on script values, not on the instruction stream
+			// operates on script values, not on the instruction stream (the one
+			// known source, splice with an overflowing count, was F31 and is
+			// C01's and C14's subject)
 			return ""
 		}
 		return "panic: " + s
